@@ -2,7 +2,7 @@
    Statements only; the proofs are in Proofs/BufHistory.v (buffer part) and
    Proofs/SizePack.v (streaming part). *)
 From Coq Require Import ZArith List Bool.
-From PBC Require Import Impl.BufSimple Proofs.BufHistory.
+From PBC Require Import Impl.Desc Impl.Mem Impl.Pack Impl.PackBuf Impl.WF Impl.BufSimple Proofs.BufHistory Proofs.SizePackFinal.
 Import ListNotations.
 Local Open Scope Z_scope.
 
@@ -38,3 +38,16 @@ Theorem C18_refused_growth_keeps_state : forall cap plan b chunk,
     live_blocks (b_log b') = live_blocks (b_log b).
 Proof. exact buffer_refusal_keeps_state. Qed.
 Print Assumptions C18_refused_growth_keeps_state.
+
+(* Streaming: for every well-formed message, the chunks protobuf_c_message_pack_to_buffer hands to the
+   buffer's append callback, concatenated in call order, are exactly the bytes protobuf_c_message_pack
+   writes (whatever the number of append calls); composed with C18_buffer_history (no refusal: acc = h)
+   the simple buffer then holds exactly those bytes. *)
+Theorem C18_streaming_delivers_pack_bytes : forall (E : env) (m : msg),
+  wf_msg E m = true ->
+  exists b cs, pack_msg E m = Ok b /\ chunks_msg E m = Ok cs /\ concat cs = b.
+Proof.
+  intros E m W. destruct (size_pack_chunks_agree E m W) as (b & Hp & _ & cs & Hc & Hcat).
+  exists b, cs. auto.
+Qed.
+Print Assumptions C18_streaming_delivers_pack_bytes.
